@@ -775,6 +775,8 @@ def summarize(fn, defer=True):
         paths, _ = explore(lambda: fn(*args, **kw), fuel=outer.fuel0, assumptions=inherited)
         out, rc, exc = merge_paths(paths)
         if exc is not None and not z3.is_false(rc):
+            if z3.is_true(rc) and out is None:
+                raise exc            # the kernel raises on every path for these arguments: nothing to defer
             if defer:
                 outer.deferred.append((rc, exc))
             elif outer.branch(rc):
